@@ -331,6 +331,7 @@ func BFS[S comparable](r *Run, init []S, nOps int, maxDepth int, step func(w *W,
 // Serial runs fn on the calling goroutine with a worker context (for small phases).
 func (r *Run) Serial(fn func(w *W)) {
 	w := r.newW()
+	w.serial = true
 	fn(w)
 	w.flush()
 }
